@@ -13,7 +13,11 @@ RULE = ("validated models (depth 0-3, all connectives, integer leaves, sharing, 
 def oracle_case(res, ast, d, rng, n_comp, got=None):
     m = build(ast)
     if got is None:
-        got = {k: v.as_tuple() for k, v in build(ast).evaluate_propositions(forms(d, rng)).items()}
+        try:
+            got = {k: v.as_tuple() for k, v in build(ast).evaluate_propositions(forms(d, rng)).items()}
+        except Exception as e:
+            return {"op": "evaluate_propositions", "model": ast_json(ast), "interpretation": {k: list(v) for k, v in d.items()},
+                    "env": {}, "problem": f"evaluate_propositions raised {type(e).__name__}: {str(e)[:160]}"}
     for _ in range(n_comp):
         env = completion(m, d, rng)
         ref = {}
@@ -127,7 +131,12 @@ def run(res, tier, seed):
         res.count("depth_%d" % depth_of(m))
         for _ in range(per):
             d = rand_interp(m, rng, p_leaf=rng.choice([0.2, 0.5, 0.8]), p_comp=rng.choice([0, 0, 0.2]))
-            obs = {k: v.as_tuple() for k, v in build(ast).evaluate_propositions(forms(d, rng)).items()}
+            try:
+                obs = {k: v.as_tuple() for k, v in build(ast).evaluate_propositions(forms(d, rng)).items()}
+            except Exception as e:
+                res.violation("oracle", f"evaluate_propositions raised {type(e).__name__}: {str(e)[:160]} on {m!r} with {d}",
+                              {"op": "evaluate_propositions", "model": ast_json(ast), "interpretation": {k: list(v) for k, v in d.items()}, "env": {}, "problem": f"raised {type(e).__name__}"})
+                continue
             derived = [k for k, b in obs.items() if b[0] == b[1] and d.get(k, (0, 1))[0] != d.get(k, (0, 1))[1]
                        and k in compound_ids(m)]
             if derived:
